@@ -150,7 +150,7 @@ func runCheck(args []string) int {
 			drift = append(drift, name+": function not found in the current tree")
 			continue
 		}
-		if e.cs.Funcs[name] == nil {
+		if e.cs.Funcs[name] == nil && !(f.Origin() != nil && e.cs.Funcs[funcFullName(f.Origin())] != nil) {
 			drift = append(drift, name+": no contract")
 			continue
 		}
